@@ -333,7 +333,7 @@ def replay_generated(ctx, stats):
         n_cases, n_q = 220, 8
     else:
         corpora, queries = generate(ctx, ["a", "b", "c"], 2, 3)
-        n_cases, n_q = 4000, 12
+        n_cases, n_q = 3000, 12
     ctx.cov["generated_corpus_cases"] = len(corpora)
     ctx.cov["generated_query_trees"] = len(queries)
     chosen = rng.sample(corpora, min(n_cases, len(corpora)))
@@ -505,7 +505,8 @@ def binding_selftest(ctx, events):
         single_hit(first_query(tr))["coll"]["lo"] ^= 1
 
     def m_topdocs_score(tr):
-        first_query(tr)["runs"][0]["tops"][0]["res"][0]["s"]["lo"] ^= 1
+        run = first_query(tr)["runs"][0]
+        next(x for x in run["tops"][-1]["res"] if leaves(run["hits"][x["i"] - 1]["term"]) == 1)["s"]["lo"] ^= 1
 
     def m_total_tokens(tr):
         next(e for e in tr if e["ev"] == "index")["segs"][0]["T"] += 1
